@@ -31,6 +31,7 @@ SKIP_REL = 1e-3          # a comparison whose error bound exceeds this relative 
 
 # ----------------------------------------------------------------------------- regeneration
 def regenerate(ck):
+    ck.lock_package()   # regeneration + build are one critical section per package
     import gen_oem
     importlib.reload(gen_oem)
     import py2lean_matrix
